@@ -157,6 +157,14 @@ func (h *c02H) release(c *c02Case) {
 			return
 		}
 	}
+	parent := filepath.Dir(c.final)
+	if k, _ := c02Kind(parent); k != "dir" {
+		os.Remove(parent)
+		if os.Mkdir(parent, 0755) != nil {
+			c.cleanup()
+			return
+		}
+	}
 	os.Remove(c.final)
 	if _, err := os.Lstat(c.final); err == nil {
 		c.cleanup()
@@ -217,26 +225,48 @@ func (h *c02H) partStates() []c02PartState {
 }
 
 type c02FinalState struct {
-	Name string
-	Data []byte
-	Dir  bool
+	Name  string
+	Data  []byte
+	Dir   bool
+	Fault string // a state in which the final rename must fail and the final path cannot exist afterwards
 }
 
 var c02FinalStates = []c02FinalState{
 	{Name: "absent"},
 	{Name: "valid", Data: c02Obj},
 	{Name: "corrupt", Data: []byte("0123456789aX")},
-	// something that is not a file occupies the final location (makes the final rename fail on every platform)
+	// something that is not a file occupies the final location (makes the final rename fail on every platform,
+	// os.Stat(final) succeeds)
 	{Name: "directory", Dir: true},
+	// rename-fault states: the final rename fails AND nothing can be at the final path afterwards
+	// (os.Stat(final) fails too), so "did it land?" must come out as "no" and the download must be reported failed
+	{Name: "parent-is-file", Fault: "parent-is-file"},                   // lfs/objects/xx/yy is a regular file: ENOTDIR
+	{Name: "parent-missing", Fault: "parent-missing"},                   // lfs/objects/xx/yy vanished: ENOENT
+	{Name: "parent-dangling-symlink", Fault: "parent-dangling-symlink"}, // lfs/objects/xx/yy -> nowhere: ENOENT
+	{Name: "final-is-symlink-loop", Fault: "final-is-symlink-loop"},     // final -> itself: ELOOP on stat, rename never attempted
 }
 
 func (c *c02Case) install(p c02PartState, f c02FinalState) {
 	if p.Data != nil {
 		must(os.WriteFile(c.part, p.Data, 0644))
 	}
-	if f.Dir {
+	parent := filepath.Dir(c.final)
+	switch {
+	case f.Fault == "parent-is-file":
+		must(os.Remove(parent))
+		must(os.WriteFile(parent, []byte("not a directory"), 0644))
+	case f.Fault == "parent-missing":
+		must(os.Remove(parent))
+	case f.Fault == "parent-dangling-symlink":
+		must(os.Remove(parent))
+		must(os.Symlink("no-such-directory", parent))
+	case f.Fault == "final-is-symlink-loop":
+		must(os.Symlink(c02Oid, c.final))
+	case f.Fault != "":
+		panic(vx.ToolError{Msg: "unknown final-location fault " + f.Fault})
+	case f.Dir:
 		must(os.MkdirAll(c.final, 0755))
-	} else if f.Data != nil {
+	case f.Data != nil:
 		must(os.WriteFile(c.final, f.Data, 0644))
 	}
 }
@@ -246,22 +276,43 @@ func (c *c02Case) install(p c02PartState, f c02FinalState) {
 type c02Snap struct {
 	Exists bool
 	Reg    bool
-	Data   []byte
+	Kind   string // absent | file | dir | symlink | other
+	Parent string // kind of the directory entry that should be the final path's parent directory: dir | file | symlink | absent | other
+	Data   []byte // file: content; dir: entry names; symlink: target
+}
+
+func c02Kind(path string) (string, os.FileInfo) {
+	st, err := os.Lstat(path)
+	switch {
+	case err != nil:
+		return "absent", nil
+	case st.Mode().IsRegular():
+		return "file", st
+	case st.IsDir():
+		return "dir", st
+	case st.Mode()&os.ModeSymlink != 0:
+		return "symlink", st
+	}
+	return "other", st
 }
 
 func c02Snapshot(path string) c02Snap {
-	st, err := os.Lstat(path)
-	if err != nil {
-		return c02Snap{}
-	}
-	s := c02Snap{Exists: true, Reg: st.Mode().IsRegular()}
-	if s.Reg {
+	var s c02Snap
+	s.Parent, _ = c02Kind(filepath.Dir(path))
+	s.Kind, _ = c02Kind(path)
+	s.Exists = s.Kind != "absent"
+	s.Reg = s.Kind == "file"
+	switch s.Kind {
+	case "file":
 		s.Data, _ = os.ReadFile(path)
-	} else if st.IsDir() {
+	case "dir":
 		ents, _ := os.ReadDir(path)
 		for _, e := range ents {
 			s.Data = append(s.Data, (e.Name() + "/")...)
 		}
+	case "symlink":
+		t, _ := os.Readlink(path)
+		s.Data = []byte("-> " + t)
 	}
 	return s
 }
@@ -269,7 +320,12 @@ func c02Snapshot(path string) c02Snap {
 func (s c02Snap) class() string {
 	switch {
 	case !s.Exists:
+		if s.Parent != "dir" && s.Parent != "" {
+			return "absent-parent-is-" + s.Parent
+		}
 		return "absent"
+	case s.Kind == "symlink":
+		return "symlink"
 	case !s.Reg:
 		return "directory"
 	case c02Sum(s.Data) == c02Oid:
@@ -279,8 +335,24 @@ func (s c02Snap) class() string {
 	}
 }
 
+// faultClass names the pre-existing state of the final location when it is one that makes the final rename fail.
+func (s c02Snap) faultClass() string {
+	switch {
+	case s.Kind == "dir":
+		return "final-is-directory"
+	case s.Kind == "symlink":
+		return "final-is-symlink"
+	case s.Exists && !s.Reg:
+		return "final-is-not-a-file"
+	case !s.Exists && s.Parent != "dir" && s.Parent != "":
+		return "final-parent-is-" + s.Parent
+	}
+	return ""
+}
+
+// equal compares exactly the final location (the statement speaks about nothing else).
 func (s c02Snap) equal(o c02Snap) bool {
-	return s.Exists == o.Exists && s.Reg == o.Reg && bytes.Equal(s.Data, o.Data)
+	return s.Exists == o.Exists && s.Kind == o.Kind && bytes.Equal(s.Data, o.Data)
 }
 
 func c02PartClass(path string) string {
@@ -428,8 +500,8 @@ func c02Judge(adapter, class string, d c02Drive, before, after c02Snap) []vx.Vio
 		vs = append(vs, vx.Violation{Fingerprint: "C02:panic:" + adapter, Msg: "code under test panicked during the download: " + firstLineOf(d.Panic), Detail: d.Panic})
 		return vs
 	}
-	if before.Exists && !before.Reg {
-		class = "final-is-directory"
+	if fc := before.faultClass(); fc != "" {
+		class = fc
 	}
 	if d.Reported == "ok" {
 		switch {
@@ -545,7 +617,7 @@ func TestVerifC02(t *testing.T) {
 	if h.self == "" {
 		h.self, _ = os.Executable()
 	}
-	h.deadline = c.DeadlineAfter(150*time.Second, 22*time.Minute)
+	h.deadline = c.DeadlineAfter(6*time.Minute, 22*time.Minute)
 	// the standalone-file agent inherits our cwd: make it a repository like a real invocation would have
 	if _, err := os.Stat(filepath.Join(h.scratch, ".git")); err != nil {
 		cmd := exec.Command("git", "init", "-q", h.scratch)
